@@ -778,6 +778,12 @@ func (g *gen) blocks(n int, depth int) []*blk {
 			}
 		}
 		out = append(out, b)
+		if b.k == kRefDef && !g.no("refdef:shadowed-duplicate") && g.r.Intn(6) == 0 {
+			// a later definition of the same label (spelled in another case) in the same container:
+			// the first one wins, so nothing refers to this one (seeded change C06-l)
+			out = append(out, &blk{k: kRefDef, label: strings.ToUpper(b.label), dest: "/shadowed", hasTtl: true, title: "shadowed"})
+			g.f("refdef:shadowed-duplicate")
+		}
 	}
 	if len(out) == 0 {
 		out = append(out, g.paragraph(false))
